@@ -101,6 +101,8 @@ pub struct Subject {
     /// a V1 proof of the same instance made by the reference prover (the
     /// crate has no V1 prover); None above the reference prover's size budget
     pub proof_v1: Option<Vec<u8>>,
+    /// [x]_1 of the public parameters (second power of the SRS)
+    pub x_g: dusk_bls12_381::G1Affine,
 }
 
 /// V1 proof of the program's own assignment from the independent reference
@@ -131,6 +133,7 @@ pub fn subject(ops: &[Op], label: &[u8], seed: u64) -> Result<Subject, Fail> {
     let cap = sys::min_capacity(n).max(64);
     let pp = sys::pp(cap);
     let proof_v1 = v1_proof(&c, label, cap, seed);
+    let x_g = crate::refprover::srs_for(cap, &pp, 2).powers[1];
     let (prover, verifier) = sys::compile(&pp, label, &program, Route::Instance)
         .map_err(|e| Fail::new("compile-error", format!("{e:?}")))?;
     let (proof, pi) = sys::prove(&prover, &program, seed)
@@ -151,6 +154,7 @@ pub fn subject(ops: &[Op], label: &[u8], seed: u64) -> Result<Subject, Fail> {
         proof_v2: proof_v2.to_bytes().to_vec(),
         pi,
         proof_v1,
+        x_g,
     })
 }
 
@@ -269,6 +273,31 @@ fn check(ctx: &Ctx, c: &Case) -> PResult {
         }
     } else {
         ctx.excluded("circuit above the reference prover's budget: no V1 accept side");
+    }
+
+    // the folding challenge u (never computed by the prover) must depend on
+    // both opening commitments: a pair shifted with a u learnt too early
+    // cancels in the pairing check of a verifier that derives u too early
+    {
+        let mut subjects: Vec<(&[u8], PlonkVersion)> = vec![(&s.proof, v3), (&s.proof_v2, PlonkVersion::V2)];
+        if let Some(p1) = &s.proof_v1 {
+            subjects.push((p1, PlonkVersion::V1));
+        }
+        let shift = f_stream(c.seed ^ 0x1a7e, 1)[0];
+        for (pb, ver) in subjects {
+            let rp = RefProof::parse(pb).map_err(|e| Fail::new("refver-parse", e))?;
+            for early in 0u8..2 {
+                for sft in [F::one(), shift] {
+                    if let Some(forged) = refver::late_bound_opening_pair(&s.rv, &rp, &s.pi, refver::version_of(ver), early, &s.x_g, &sft) {
+                        compare(
+                            ctx,
+                            if early == 0 { "opening pair shifted with u drawn before both commitments" } else { "opening pair shifted with u drawn after W_z only" },
+                            &s.verifier, &s.rv, &forged.to_bytes(), &s.pi, ver, Some(false),
+                        )?;
+                    }
+                }
+            }
+        }
     }
 
     // verifier rebuilt from bytes decides the same
